@@ -267,10 +267,18 @@ func (e *pathEngine) Run(fn *ssa.Function, args []AV, presetFacts map[int]Nilnes
 // RunFrom enumerates the paths of fn that start at block b (as entered from pred), with the given values preset in
 // the frame; values defined before b that are not preset evaluate to fresh symbols.
 func (e *pathEngine) RunFrom(fn *ssa.Function, b, pred *ssa.BasicBlock, preset map[ssa.Value]AV) []Outcome {
+	return e.RunFromCells(fn, b, pred, preset, nil)
+}
+
+// RunFromCells is RunFrom with the contents of local cells (named results, address-taken locals) given as well.
+func (e *pathEngine) RunFromCells(fn *ssa.Function, b, pred *ssa.BasicBlock, preset map[ssa.Value]AV, cells map[*ssa.Alloc]AV) []Outcome {
 	st := &pathState{facts: map[int]Nilness{}, cells: map[cellKey]AV{}, globals: map[*ssa.Global]AV{}, intEq: map[string]int64{}, intNeq: map[string]map[int64]bool{}}
 	fr := &frame{fn: fn, env: map[ssa.Value]AV{}, visits: map[*ssa.BasicBlock]int{}}
 	for k, v := range preset {
 		fr.env[k] = v
+	}
+	for a, v := range cells {
+		st.cells[cellKey{a, -1}] = v
 	}
 	e.Inlined[fn] = true
 	e.stack = append(e.stack, fn)
